@@ -29,7 +29,7 @@ CHECKS = {
    note="Sets compared as sets of keys; order judged through the block's peer-set hash against the node's own reported set."),
  "C19": dict(engine="thresholds", cat="exploration", ref="DESIGN.md §3 C19",
    technique="runtime monitoring: the real threshold methods and acceptance decisions executed for every n in 1..100000 against integer arithmetic",
-   text="Exhaustive for the stated range: SuperMajority()/TrustCount() of real PeerSet values for every n = 1..100000 against 'least k with 3k>2n' and 'accepted count > n/3' and the derived intersection facts; random branching add/remove/re-add sequences through WithNewPeer/WithRemovedPeer against a model of distinct keys; the real CheckBlock and SetAnchorBlock for all n<=16, k<=n with real keys, and the anchor decision through the signature pool on a node that knows a second, larger validator set.",
+   text="Exhaustive for the stated range: SuperMajority()/TrustCount() of real PeerSet values for every n = 1..100000 against 'least k with 3k>2n' and 'accepted count > n/3' and the derived intersection facts; random branching add/remove/re-add sequences through WithNewPeer/WithRemovedPeer against a model of distinct keys; the real CheckBlock and SetAnchorBlock for all n<=16, k<=n with real keys, and the anchor decision through the signature pool on a node that knows a second, larger validator set; the fame decisions of a real Hashgraph on corpus shapes and random DAGs (5-7 validators) are compared with a harness-side replay of the votes in which only a supermajority of the validators decides.",
    note="For n>1500 the PeerSet is assembled from the same exported fields NewPeerSet fills (maps shared between successive n). Refusal of sufficient signatures is not flagged."),
  "C03": dict(engine="dagcheck", cat="exploration", ref="DESIGN.md §3 C03",
    technique="runtime monitoring: differential execution of one DAG by many real Hashgraph instances (orders, stores, caches, batchings, sub-DAGs)",
@@ -69,7 +69,7 @@ CHECKS = {
    note="Process kill, not machine crash. In-process points release the Badger handle via Close; real kills are the SIGKILL tier. Stores reset by fast-sync excluded (bootstrap from 0 only)."),
  "C15": dict(engine="dagcheck", cat="exploration", ref="DESIGN.md §3 C15",
    technique="runtime monitoring: round-trip equalities over generated events/blocks/frames through the real wire, JSON, database and canonical encodings",
-   text="Generated events with a payload variant grammar go event->wire->transport JSON->event on a second real Hashgraph, event->DB form->event, into a real Badger store (read back after eviction and after reopen); blocks and frames of real histories go through the FastForwardResponse JSON, the canonical encoding and a rebuild with permuted map order. Validator sets in every accepted key spelling are written to Badger and read back from the database before and after a reopen. Hash, signature validity, payload bytes, wire form and private fields must be unchanged.",
+   text="Generated events with a payload variant grammar go event->wire->transport JSON->event on a second real Hashgraph, event->DB form->event, into a real Badger store (read back after eviction and after reopen); blocks and frames of real histories go through the FastForwardResponse JSON, the canonical encoding and a rebuild with permuted map order. Validator sets in every accepted key spelling are written to Badger and read back from the database before and after a reopen; in the nodesim histories every stored event is re-hashed, re-verified and sent through its wire form when first seen and again later. Hash, signature validity, payload bytes, wire form and private fields must be unchanged.",
    note="Block signatures inside generated events are attributed to their creator (wire form has no validator field by design)."),
  "C16": dict(engine="storecheck", cat="exploration", ref="DESIGN.md §3 C16",
    technique="runtime monitoring: model-based differential replay of recorded store call sequences against the real BadgerStore across cache sizes, with interleaved reads and close/reopen",
